@@ -141,6 +141,23 @@ func genLeafInjected(r *rng, mode string, emit func(FlowScenario)) {
 	}
 }
 
+// batchflow: flows that consist mostly of batch nodes (self-loops and batch-after-batch steps are frequent), with
+// a cancellation injected inside every executed callback: what a flow does around a cancelled batch node
+// (C11 "the run terminates", C05 "no further node is started")
+func genBatchFlow(r *rng, thorough bool, emit func(FlowScenario)) {
+	n := 120
+	if thorough {
+		n = 1200
+	}
+	for i := 0; i < n; i++ {
+		p := flowParams{leaves: r.intn(2), batches: 2 + r.intn(3), depth: 1 + r.intn(2),
+			actions: []string{"a", "b"}, maxVisits: 3, pFail: 25, pPhaseFail: 0, funcStyle: false, runs: 1, wideBatch: false}
+		sc := randFlow(r, p)
+		sc.Kind = r.pick([]string{"canceled", "deadline", "cause", "fardeadline"})
+		withInjections(sc, "cancel", emit)
+	}
+}
+
 func genC10(r *rng, thorough bool, emit func(FlowScenario)) {
 	n := 3000
 	if thorough {
@@ -224,7 +241,7 @@ func genC18(r *rng, thorough bool, emit func(FlowScenario)) {
 					succ := LeafCfg{Retryable: true, Budget: 1, Fb: "pass", PrepS: "direct", ExecS: "direct", PostS: "direct"}
 					emit(FlowScenario{Kind: "canceled", Ctx0: "live",
 						Nodes: []NodeDef{{ID: 0, Batch: &cfg}, {ID: 1, Leaf: &succ},
-							{ID: 2, Flow: &FlowDef{Start: ip(0), Ops: []Conn{{Src: 0, Action: "default", Dst: ip(1)}}}}},
+							{ID: 2, Flow: &FlowDef{Start: ip(0), Ops: []Conn{{Src: 0, Action: "default", Dst: ip(1)}, {Src: 0, Action: "", Dst: nil}}}}},
 						LeafScripts:  []LeafScript{t.leafScript(1, 0, true, 1, 1, true, "=done")},
 						BatchScripts: []BatchScript{bs}, Steps: []Step{{Run: ip(2)}}})
 				}
